@@ -318,6 +318,14 @@ def c07(chk):
                                   workers=12 if chk.tier == "quick" else 16, env_extra={"PRIMS": prims}, timeout=3000)
         chk.add_model(info, summ, {"separators", "panic"}, ["two_renderings"],
                       note=f"MC_Sep.tla: sequences up to length {maxlen} x separator set '{sepset}'")
+    # "an unterminated /* is an error, and comment markers inside string literals are plain text"
+    n = 4 if chk.tier == "quick" else 5
+    info, summ = vf.run_model(f"lex_raw{n}", "MC_Lex.tla", {"Family": "raw", "MaxLen": n}, chk.outdir,
+                              workers=12 if chk.tier == "quick" else 16, timeout=3000)
+    chk.add_model(info, summ, {"literal", "panic"}, ["lexerr"], note=f"MC_Lex.tla raw source texts over {{a & | \" \\ space 1 + / *}} up to length {n}")
+    info, summ = vf.run_model(f"lex_strings{n}", "MC_Lex.tla", {"Family": "strings", "MaxLen": n}, chk.outdir,
+                              workers=12 if chk.tier == "quick" else 16, timeout=3000)
+    chk.add_model(info, summ, {"literal", "panic"}, ["wf"], note=f"MC_Lex.tla string bodies containing / * and newlines, up to length {n}")
 
 
 def c16(chk):
